@@ -124,7 +124,7 @@ impl Family for C19Family {
                 // now and then the store refuses one call of this ceremony (the wrappers must hand the
                 // error on and let go of the lock)
                 if store_errors && r.chance(1, 2) {
-                    op.faults.push(Fault { seam: *r.pick(&[SeamKind::Find, SeamKind::Save, SeamKind::Update]), nth: 0, status: *r.pick(&[0x28u8, 0x06, 0x7F]), sticky: false });
+                    op.faults.push(Fault { seam: *r.pick(&[SeamKind::Find, SeamKind::Save, SeamKind::Update]), nth: 0, status: *r.pick(&[0x28u8, 0x06, 0x7F]), sticky: false, late: false });
                 }
                 actor.ops.push(op);
             }
@@ -337,7 +337,7 @@ impl Family for C19Family {
 fn enumerate_base(master: u64, index: u64, r: &mut Rng) -> Scenario {
     let wrap = if r.bool() { Wrap::ArcMutex } else { Wrap::ArcRwLock };
     let backend = if r.chance(1, 3) { Backend::Memory } else { Backend::Ref };
-    let mut c = ceremony(backend, wrap, StoreCfg { newest_first: false, nomatch_err: false, capability: Capability::Full });
+    let mut c = ceremony(backend, wrap, StoreCfg { newest_first: false, nomatch_err: false, capability: Capability::Full, ignore_ids: false });
     c.rng_seed = r.next_u64();
     c.prelude = gen_prelude(r, 1, Some(true));
     c.prelude[0].rp_id = "example.com".into();
